@@ -203,6 +203,13 @@ theorem hull_check_convex (pts r : List Pt) (h : hullCheck pts (.ring r) = true)
   obtain ⟨sgn, hs⟩ := hullCheck_ring h
   exact ⟨sgn, hs.sign, hs.convex⟩
 
+/-- the checker used for full-precision inputs (no strict-corner requirement) still certifies: corners ⊆ inputs,
+every input inside-or-on every edge, convex -/
+theorem hull_check_weak_sound (pts r : List Pt) (h : hullCheckWeak pts (.ring r) = true) :
+    ∃ sgn : Int, HullRingWeakSpec pts r sgn ∧ ∀ e ∈ edges r, ∀ c ∈ r, 0 ≤ sgn * det e.1 e.2 c := by
+  obtain ⟨sgn, hs⟩ := hullCheckWeak_ring h
+  exact ⟨sgn, hs, hs.convex⟩
+
 /-- degenerate hull outputs: a point means all inputs are that point; a segment contains every input and ends at inputs -/
 theorem hull_check_degenerate (pts : List Pt) :
     (∀ p, hullCheck pts (.point p) = true → pts ≠ [] ∧ ∀ q ∈ pts, q = p) ∧
